@@ -185,8 +185,19 @@ theorem xml_roundtrip_compact (tag : Bytes) (attrs : List (Bytes × Bytes)) (cs 
   obtain ⟨n, h1, h2⟩ := decode_encode_compact tag attrs cs h
   exact ⟨n, h1, by rw [h2, normOp_eq_normalize]⟩
 
+/-- the same for the indented output whenever text occurs only as the sole child of its element -/
+theorem xml_roundtrip_indented (tag : Bytes) (attrs : List (Bytes × Bytes)) (cs : List Tree)
+    (h : ValidTree (.elem tag attrs cs)) (hs : SoleText (.elem tag attrs cs)) :
+    ∃ n, decode (encode true (.elem tag attrs cs)) = .node n ∧ n.erase = normalize (.elem tag attrs cs) := by
+  obtain ⟨n, h1, h2⟩ := decode_encode_indented tag attrs cs h hs
+  exact ⟨n, h1, by rw [h2, normOp_eq_normalize]⟩
+
 /-- non-vacuity: `<a b="&lt;&amp;"> h<c/></a>`-like tree with adjacent and blank text is valid -/
 example : ValidTree (.elem [97] [([98], [60, 38]), ([99, 58], [])] [.text [32], .text [104, 38], .text [], .elem [99] [] [], .text [10]]) := by
   simp [ValidTree, ValidList, NameOK, AttrsOK, NulFree, nameStartBad, nameCharBad, bytesLt]
+
+/-- non-vacuity of the indented hypothesis: nested elements, a sole text child, an empty element -/
+example : SoleText (.elem [97] [] [.elem [98] [] [.text [104]], .elem [99] [] []]) := by
+  simp [SoleText, SoleTextL, soleKids, Tree.isText]
 
 end C07
